@@ -40,6 +40,9 @@ fn main() {
             s.gen("file-e2e-flush", s.n(3_000, 100_000), fsim::e2e::flush_case, |c, cx| fsim::e2e::check_flush(c, cx));
             // OTLP end-to-end clause of this property (real emit_otlp emitter against the scripted collector; harness/c12/src/e2e.rs)
             c12::e2e::register_c07(s);
+            // the async send / flush with finite non-zero timeouts on real runtimes (E2 only sees 0 and "never"): this
+            // property's oracle over the same workloads C09 uses
+            s.gen("e7-async-send-timeouts", s.n(1_200, 30_000), e7::async_case, |c, cx| e7::check_async(c, Prop::C07, cx));
             s.gen("e7-os-threads", s.n(3_000, 150_000), || e7::workload(1), |c, cx| e7::check(c, Prop::C07, cx));
         },
     )
